@@ -24,10 +24,4 @@ theorem msdCombine_is_definition (r : List V3) (m : Nat) (hm : m < r.length) :
     Gen.msdCombine (s1 r m) (s2 r m) = msdDef r m := by
   rw [msdCombine_model]; exact C06.msdAlgo_eq_def r m hm
 
-theorem track_is_unwrapped_cartesian : Gen.trackIsUnwrappedCartesian = true := rfl
-theorem autocorrelation_zero_padded_to_twice_frames : Gen.autocorrelationZeroPaddedToTwiceFrames = true := rfl
-theorem window_counts_are_frames_minus_lag : Gen.windowCountsAreFramesMinusLag = true := rfl
-theorem squared_length_recursion : Gen.squaredLengthRecursion = true := rfl
-theorem returns_msd : Gen.returnsMsd = true := rfl
-
 end G.C06Gen
